@@ -18,7 +18,7 @@ Inductive opname :=
 | Op_dt_set_offset | Op_dt_as_offset | Op_time_set_offset | Op_time_as_offset | Op_offset_from_seconds | Op_offset_from_hms
 | Op_dt_from_ymdhms | Op_dt_from_hms | Op_date_info | Op_dt_info
 (* cron *)
-| Op_cron_parse | Op_cron_next
+| Op_cron_parse | Op_cron_next | Op_std_tables
 (* TZif *)
 | Op_tz_lookup | Op_tz_expect | Op_tz_synth | Op_tz_local
 (* text *)
